@@ -72,6 +72,11 @@ func (c *Ctx) add(rule, construct, pos, status, detail string, nontrivial bool) 
 	if c.keep != nil && !c.keep(construct, detail) {
 		return
 	}
+	if c.keep != nil && c.ruleMap != nil {
+		if _, imported := c.ruleMap[rule]; !imported {
+			return // an import takes the rules it names, nothing else of the other property
+		}
+	}
 	if r, ok := c.ruleMap[rule]; ok {
 		rule = r
 	}
